@@ -37,8 +37,45 @@ def shards(tier, seed):
     for i, g in enumerate(common.split(common.ALL_INDEXES, 4)):
         out.append({'name': 'f%d' % i, 'what': 'frames', 'indexes': g,
                     'per': 12 if q else 400})
+    # the same cases in two more processes that differ in nothing but the
+    # string-hash seed: "the same table gives identical bytes" also between
+    # interpreters (a result that follows the iteration order of a set is
+    # stable inside one process and differs between two)
+    xp = []
+    for lab, hs in (('a', '101'), ('b', '202'), ('c', '0')):
+        for base in (out[0], out[1]):
+            c = dict(base)
+            c['rng_name'] = base['name']
+            c['name'] = '%s+hashseed%s' % (base['name'], hs)
+            c['config'] = {'xproc': lab}
+            c['env'] = {'PYTHONHASHSEED': hs}
+            xp.append(c)
     return out + common.with_configs([out[0], out[12]], common.ALL_CONFIGS,
-                                     take=2)[2:]
+                                     take=2)[2:] + xp
+
+
+def finalize(m, tier):
+    """The same input encoded in processes with different hash seeds."""
+    by_input = {}
+    for dig, lab, out in m.sets.get('xproc', ()):
+        by_input.setdefault(dig, {})[lab] = out
+    both = [d for d, v in by_input.items() if len(v) >= 2]
+    m.counters['inputs_encoded_under_several_hash_seeds'] = len(both)
+    for d in sorted(both, key=repr):
+        outs = by_input[d]
+        if len(set(outs.values())) > 1:
+            m.viol_counts['differs-between-interpreters'] += 1
+            if m.viol_counts['differs-between-interpreters'] <= 1:
+                m.violations.append({
+                    'property': PROP,
+                    'mechanism': 'differs-between-interpreters',
+                    'what': 'the same table encodes to different bytes in '
+                            'interpreters that differ only in PYTHONHASHSEED '
+                            '(input digest %s: %r)' % (d, outs),
+                    'case': canon.dump({'t': 'table', 'v': {},
+                                        'input_digest': d}),
+                    'observed': None, 'expected': None})
+    m.sets.pop('xproc', None)
 
 
 def permute_deep(v, rnd):
@@ -224,6 +261,11 @@ def run_case(case, rec):
             if not longkeys and not _check_sorted(ref, rec, case, t):
                 return
             rec.nt(canon.digest(v, ordered=True))
+            if common.CONFIG.get('xproc'):
+                import hashlib
+                rec.seen('xproc', (canon.digest(v, ordered=True),
+                                   common.CONFIG['xproc'],
+                                   hashlib.sha256(ref).hexdigest()[:16]))
             # "encoding the same table twice gives identical bytes" whatever
             # was encoded in between: enough other scalars to evict a
             # bounded memo, then EQUAL tables whose values have other types
@@ -409,6 +451,10 @@ def run_case(case, rec):
 
 def gates(m, tier):
     out = []
+    if m.counters.get('inputs_encoded_under_several_hash_seeds', 0) < 200:
+        out.append('only %d inputs were encoded under several hash seeds '
+                   '(need 200)' % m.counters.get(
+                       'inputs_encoded_under_several_hash_seeds', 0))
     if m.counters.get('tables_with_2plus_orders', 0) < 100:
         out.append('fewer than 100 tables encoded in >=2 distinct orders')
     if not m.counters.get('nesting_3plus_permuted'):
